@@ -32,6 +32,8 @@ def profile(tier):
             n_channels=(1, 4), allow_builtin=True,
             max_seq=[None, 600, 1000, 2000, 6000],
             chan_kw={"bandwidth": [None, 4, 8, 8, 20, 40]}),
+        "register": st.one_of(gen.register_specs(), gen.register_specs(), gen.register_specs(),
+                              gen.register_specs(n=(2, 5), mappable=True, dim=2)),
     }
 
 
